@@ -493,16 +493,24 @@ def native_features():
                     ("whitespace-elements", dict(ws_elements=True)), ("span", dict(span_at=1)),
                     ("paragraphs", dict(paragraphs=True)), ("empty-paragraph", dict(empty_paragraph=True)),
                     ("whitespace-elements-inside-spans", dict(ws_elements=True, span_at=1)),
-                    ("all-features", dict(ws_elements=True, span_at=2, column_runs=True, empty_paragraph=True))]
+                    ("all-features", dict(ws_elements=True, span_at=2, column_runs=True, empty_paragraph=True)),
+                    ("indented", dict(ws_elements=True)), ("indented-paragraphs", dict(ws_elements=True, paragraphs=True)),
+                    ("indented-spans", dict(ws_elements=True, span_at=1))]
         for ti, table in enumerate(FEATURE_TABLES):
             for vname, opts in variants:
-                if vname == "paragraphs" and not any("\n" in c for r in table for c in r):
+                if vname in ("paragraphs", "indented-paragraphs") and not any("\n" in c for r in table for c in r):
                     continue
                 if vname == "plain" and any(("\n" in c or "\t" in c or "  " in c) for r in table for c in r):
                     continue  # without ODF white space elements an XML parser may normalise such text
                 n += 1
                 p = os.path.join(d, "t%d_%s.ods" % (ti, vname))
-                write_ods(p, encode_document([("first", [["other"]]), ("second", table)], **opts))
+                doc = encode_document([("first", [["other"]]), ("second", table)], **opts)
+                if vname.startswith("indented"):
+                    # what a pretty printer does: line breaks and indentation between the elements outside paragraphs
+                    import re as _re
+                    doc = _re.sub(r"(</text:p>|<text:p/>|</table:table-cell>|</table:table-row>|<table:table-row[^>/]*>|"
+                                  r"<table:table-cell[^>/]*>|<table:table-cell[^>]*/>)", lambda m: m.group(1) + "\n      ", doc)
+                write_ods(p, doc)
                 try:
                     got = list(rowio.ods_rows(p, 2))
                 except Exception as e:  # noqa
